@@ -375,7 +375,9 @@ def t_find_islands(ctx, with_region):
     # record the np.where used for the region test
     np_where = g['np'].members['where']
 
-    def where_rec(c, cond):
+    def where_rec(c, cond, *rest):
+        if rest:
+            raise Undecided("np.where with three arguments")
         r = np_where.fn(c, cond)
         if isinstance(r, WhereIdx):
             c.ghost['where_for_region'] = r
